@@ -479,7 +479,7 @@ class RRELExpression:
         prepare_tree(self.seq)
 
     def __repr__(self):
-        if self.importURI:
+        if self.flags:
             return "+" + self.flags + ":" + str(self.seq)
         else:
             return str(self.seq)
